@@ -2,6 +2,7 @@
 the event file named by VP_EVENT_FILE:  constructed <name> <inloop>, run <name>, beat <name> <n>,
 cancelled <name>, failing <name>."""
 import asyncio
+import gc
 import os
 import threading
 import time
@@ -29,6 +30,9 @@ def in_loop():
         return 1
     except RuntimeError:
         return 0
+
+
+PARK = bool(os.environ.get("VP_FX_PARK"))
 
 
 class _Base:
@@ -81,6 +85,8 @@ async def _beat_trio(self):
             if self.fail_after and n >= self.fail_after:
                 log("failing", self.name)
                 raise _failure(self)
+            if PARK:
+                gc.collect()   # a cyclic garbage collection happens now and then
             await trio.sleep(0.02)
     except trio.Cancelled:
         log("cancelled", self.name)
@@ -97,6 +103,10 @@ async def _beat_asyncio(self):
             if self.fail_after and n >= self.fail_after:
                 log("failing", self.name)
                 raise _failure(self)
+            if PARK and n >= 2 and not self.fail_after:
+                # from now on the service waits for something only it knows about (no timer, no
+                # queue): it is still a service the daemon has to keep and, at the end, cancel
+                await asyncio.get_running_loop().create_future()
             await asyncio.sleep(0.02)
     except asyncio.CancelledError:
         log("cancelled", self.name)
@@ -112,6 +122,8 @@ def _beat_thread(self):
         if self.fail_after and n >= self.fail_after:
             log("failing", self.name)
             raise _failure(self)
+        if PARK:
+            gc.collect()
         time.sleep(0.02)
 
 
@@ -143,12 +155,18 @@ class DCtrlThread(Controller, _Base):
 
 
 @service(flavour=trio)
-class DDecoTrio(PoolDecorator, _Base):
+class _DecoService(PoolDecorator, _Base):
     def __init__(self, target, name="deco", fail_after=0, falsy=False):
         super().__init__(target)
         self._constructed(name, fail_after, falsy)
 
     run = _beat_trio
+
+
+@service(flavour=trio)
+class DDecoTrio(_DecoService):
+    """a service class derived from a service class and declared a service once more: still
+    ONE service per instance"""
 
 
 class Site:
